@@ -34,6 +34,7 @@ import lena.variables
 from ..kernel import RunResult, summarize, exception_origin, exception_site
 from ..seams.fs import SimFS, SimOS, Clock
 from ..seams.proc import SimSubprocess
+from ..seams.flow import Unprintable
 
 PROPERTY = "C10"
 LEVEL = "exploration"
@@ -143,6 +144,10 @@ def canon(x, depth=0, fs=None):
         return ("l",) + tuple(canon(y, depth + 1) for y in x)
     if isinstance(x, dict):
         return ("d",) + tuple(sorted(((repr(k), canon(v, depth + 1)) for k, v in x.items())))
+    if isinstance(x, Unprintable):
+        return ("unprintable", x.n)
+    if isinstance(x, bytes):
+        return ("bytes", x.decode("latin-1"))
     if isinstance(x, OneShot):
         return ("oneshot", tuple(x.items), x.taken)
     if isinstance(x, (Foreign, Writable)):
@@ -171,7 +176,10 @@ def a_graph(k=0):
 
 
 COMMON_B = ["int", "float", "tuple", "foreign", "none", "pair-unrelated", "list", "pair-foreign",
-            "iterator", "pair-iterator"]
+            "iterator", "pair-iterator", "unprintable", "pair-unprintable", "bytes"]
+
+
+
 
 
 class OneShot(object):
@@ -209,6 +217,12 @@ def common_b(kind, j, fs):
         return [j, j + 1]
     if kind == "pair-foreign":
         return (Foreign(j), {"plot": {"name": "f%d" % j}})
+    if kind == "unprintable":
+        return Unprintable(j)
+    if kind == "pair-unprintable":
+        return (Unprintable(j), {"info": {"j": j}})
+    if kind == "bytes":
+        return (b"raw bytes %d" % j, {"output": {"filename": "bytes%d" % j}})
     if kind == "iterator":
         return OneShot([j, j + 1])
     if kind == "pair-iterator":
